@@ -126,6 +126,8 @@ def run(tier, seed, replay=None):
         res.violation("proof obligation no longer checks: " + "; ".join(thm["problems"]),
                       {"theorem_or_correspondence": "coq/props/C03.v", "log": thm["log"][-3000:]}, no_failing_input=not real_m)
 
+    if tier == "thorough" and (thm is None or thm["ok"]):
+        thorough_coqchk(res, "C03")
     res.coverage.update({
         "evaluations": stats.get("evaluations", 0),
         "distinct_nontrivial": stats.get("distinct_nontrivial", 0),
